@@ -98,6 +98,10 @@ type Client struct {
 	// Vals returns the active validators (used by the validator API's index -> pubkey lookups).
 	Vals func() eth2wrap.ActiveValidators
 
+	// ProposalFn returns this node's view of the block to propose for (slot, randao reveal, graffiti)
+	// (produceBlockV3). nil = the endpoint is not served (Proposal panics like any unimplemented method).
+	ProposalFn func(ctx context.Context, opts *eth2api.ProposalOpts) (*eth2api.VersionedProposal, error)
+
 	// Latency, if set, is the simulated response time of an endpoint ("spec", "domain").
 	Latency func(method string) time.Duration
 
@@ -189,6 +193,19 @@ func (c *Client) ActiveValidators(context.Context) (eth2wrap.ActiveValidators, e
 
 func (c *Client) GenesisDomain(_ context.Context, dt eth2p0.DomainType) (eth2p0.Domain, error) {
 	return ComputeDomain(dt, c.Chain.ForkVersion, eth2p0.Root{}), nil
+}
+
+// Proposal serves the block this node's beacon view produces for the request (ProposalFn).
+func (c *Client) Proposal(ctx context.Context, opts *eth2api.ProposalOpts) (*eth2api.Response[*eth2api.VersionedProposal], error) {
+	c.count("proposal")
+	if c.ProposalFn == nil {
+		panic("simbeacon: Proposal called but no ProposalFn installed")
+	}
+	p, err := c.ProposalFn(ctx, opts)
+	if err != nil {
+		return nil, err
+	}
+	return &eth2api.Response[*eth2api.VersionedProposal]{Data: p, Metadata: map[string]any{}}, nil
 }
 
 func (c *Client) AttestationData(ctx context.Context, opts *eth2api.AttestationDataOpts) (*eth2api.Response[*eth2p0.AttestationData], error) {
